@@ -4,6 +4,8 @@ pub mod c03;
 pub mod c09;
 pub mod c10;
 pub mod c14;
+pub mod c16;
+pub mod c17;
 pub mod c18;
 pub mod c19;
 pub mod c20;
@@ -18,6 +20,8 @@ pub fn by_id(id: &str) -> Option<Box<dyn Prop>> {
         "C09" => Some(Box::new(c09::C09::default())),
         "C10" => Some(Box::new(c10::C10::default())),
         "C14" => Some(Box::new(c14::C14::default())),
+        "C16" => Some(Box::new(c16::C16::default())),
+        "C17" => Some(Box::new(c17::C17::default())),
         "C18" => Some(Box::new(c18::C18::default())),
         "C19" => Some(Box::new(c19::C19::default())),
         "C20" => Some(Box::new(c20::C20::default())),
